@@ -127,7 +127,7 @@ pub struct ViewH {
     pub kind: &'static str,
     pub get: std::rc::Rc<dyn Fn() -> Locale>,
     pub get_untracked: Box<dyn Fn() -> Locale>,
-    pub set: Box<dyn Fn(Locale)>,
+    pub set: std::rc::Rc<dyn Fn(Locale)>,
     pub set_untracked: Box<dyn Fn(Locale)>,
     pub n_readers: usize,
     pub make_reader: Box<dyn Fn(usize) -> Reader>,
@@ -137,11 +137,11 @@ pub struct ViewH {
 
 fn base<S: Scope<Locale>>(
     ctx: I18nContext<Locale, S>,
-) -> (std::rc::Rc<dyn Fn() -> Locale>, Box<dyn Fn() -> Locale>, Box<dyn Fn(Locale)>, Box<dyn Fn(Locale)>) {
+) -> (std::rc::Rc<dyn Fn() -> Locale>, Box<dyn Fn() -> Locale>, std::rc::Rc<dyn Fn(Locale)>, Box<dyn Fn(Locale)>) {
     (
         std::rc::Rc::new(move || ctx.get_locale()),
         Box::new(move || ctx.get_locale_untracked()),
-        Box::new(move |l| ctx.set_locale(l)),
+        std::rc::Rc::new(move |l| ctx.set_locale(l)),
         Box::new(move |l| ctx.set_locale_untracked(l)),
     )
 }
@@ -278,7 +278,7 @@ pub fn view_cell(cur: std::rc::Rc<dyn Fn() -> I18nContext<Locale>>) -> ViewH {
         kind: "root",
         get: std::rc::Rc::new(move || c1().get_locale()),
         get_untracked: Box::new(move || c2().get_locale_untracked()),
-        set: Box::new(move |l| c3().set_locale(l)),
+        set: std::rc::Rc::new(move |l| c3().set_locale(l)),
         set_untracked: Box::new(move |l| c4().set_locale_untracked(l)),
         n_readers: 16,
         make_reader: Box::new(move |i| (view_root(c5()).make_reader)(i)),
